@@ -12,6 +12,7 @@
 // Scenario: {"cfg":{...},"acts":[...]}; actions:
 //
 //	msg{p,m}        forwarder p writes a copy of message m (same bytes for every copy)
+//	rpc{p,ms}       forwarder p writes ONE RPC whose Publish list is ms (a message may be repeated)
 //	rel{v,m,r}      validator v (1-based) returns r (0 Accept, 1 Reject, 2 Ignore, other = out of range) for m
 //	adv{tv:[{v,m,r}]} let the validator timeout pass; running validators with a timeout return tv's verdicts
 //	pub{m}          Topic.Publish of the payload of m on its own goroutine; the return value is logged when it returns
@@ -369,6 +370,28 @@ func runScenario(t *testing.T, out *vh.Out, idx int, s scenario) {
 			case "msg":
 				p, _ := a["p"].(string)
 				w.Do(M{"a": "msg", "p": p, "t": topicName, "m": m, "unsigned": !signed})
+			case "rpc":
+				// ONE RPC whose Publish list carries several messages, possibly the same one more than once
+				p, _ := a["p"].(string)
+				f := w.Fakes[p]
+				var list []*pb.Message
+				names := []string{}
+				if l, ok := a["ms"].([]any); ok {
+					for _, x := range l {
+						name, _ := x.(string)
+						pm := w.Msg(name)
+						if pm == nil {
+							pm = f.NewMessage(name, topicName, 16, signed)
+							w.RegMsg(name, pm)
+						}
+						list = append(list, pm)
+						names = append(names, name)
+					}
+				}
+				w.Guard()
+				f.Send(hnet.MsgRPC(list...))
+				hnet.Settle(15 * time.Millisecond)
+				w.Emit(M{"a": "rpc", "p": p, "ms": names})
 			case "block":
 				d.mu.Lock()
 				d.blk[m] = make(chan struct{})
